@@ -387,6 +387,8 @@ func init() {
 		const caseFile, poolFile = "pkg/matchers/dissect/case.go", "pkg/slicepool/intpool.go"
 		sk, ok := c12Skeleton(c, c.Func(file, "DissectInstance.FindSubmatchIndex"))
 		c12EmitList(&sb, "findSkeleton", sk, ok)
+		sk, ok = c12Skeleton(c, c.Func(file, "CompileEx"))
+		c12EmitList(&sb, "compileSkeleton", sk, ok)
 		sk, ok = c12Skeleton(c, c.Func(caseFile, "indexIgnoreCase"))
 		c12EmitList(&sb, "icSkeleton", sk, ok)
 		sk, ok = c12Skeleton(c, c.Func(caseFile, "lowerASCII"))
